@@ -658,6 +658,7 @@ PROPS["C18"] = {
         leg("fixed-pool", "c18_faults", (2, 2), {"kind": "fixed"}, flags=(), what="fixed pool: buffer handed out once"),
         leg("pool-orphan", "c18_faults", (3, 5), {"kind": "poolorphan"}, flags=(), what="pool whose slabs were orphaned by a finished thread and emptied by another thread; then every pattern of refused raw requests during a history (hard cache cleanup of orphaned blocks)"),
         leg("pool-orphan-live", "c18_faults", (3, 5), {"kind": "poolorphan", "keep": 5}, flags=(), what="same, five blocks of the finished thread stay live and must stay intact"),
+        leg("pool-reset-tls", "c18_faults", (3, 5), {"kind": "poolreset_tls"}, flags=(), what="two threads used the pool and ended, then pool_reset; every pattern of refused raw requests during the history that follows; then a new thread and the main thread allocate again: no block may share memory with anything the allocator still uses (contents intact, no overlap, inside the raw regions)"),
         leg("two-pools", "c18_faults", (4, 6), {"kind": "twopools"}, flags=(), what="two pools with live blocks; destroying one must not touch the other"),
         leg("backref-exhaust", "c18_faults", (1, 1), {"kind": "backref"}, flags=("-exec-timeout", "10", "-horizon", "10000000"), what="8400 live large objects exhaust the back-reference table; from an explorer-chosen raw request on, every request is refused (memory stays exhausted): clean failure, no hang, live blocks intact, recovery", weight=2.0),
         leg("backref-exhaust-pool", "c18_faults", (2, 2), {"kind": "poolbackref"}, flags=("-exec-timeout", "15", "-horizon", "10000000"), what="the objects come from a memory pool whose raw callback always succeeds while the default pool (which holds the back-reference table) is drained and out of memory; 0-2 chunks given back by choice", weight=2.0),
